@@ -770,10 +770,10 @@ class Parser(object):
 
     def p_equality_expr_noin(self, p):
         """equality_expr_noin : relational_expr_noin
-                              | equality_expr_noin EQEQ relational_expr
-                              | equality_expr_noin NE relational_expr
-                              | equality_expr_noin STREQ relational_expr
-                              | equality_expr_noin STRNEQ relational_expr
+                              | equality_expr_noin EQEQ relational_expr_noin
+                              | equality_expr_noin NE relational_expr_noin
+                              | equality_expr_noin STREQ relational_expr_noin
+                              | equality_expr_noin STRNEQ relational_expr_noin
         """
         if len(p) == 2:
             p[0] = p[1]
